@@ -35,6 +35,8 @@ func exec(op string) vlib.Res {
 		return execLease(f)
 	case "chain":
 		return execChain(f)
+	case "upool":
+		return execUPool(f)
 	case "retain":
 		return execRetain(f)
 	case "carrier":
